@@ -215,8 +215,10 @@ class Check(PropertyCheck):
     manifest = {
         'text': ('Theorems over Model/QnMatch.v + Model/Privacy.v for every pattern, name and rule list (unbounded): '
                  'C13_translate_meaning (qnmatch = the documented glob meaning, whole-name, for every pattern without an '
-                 'inverted range), C13_bad_range_refuted ([z-a] raises), C13_precedence, C13_default_rule, '
-                 'C13_cache_transparent, C13_parse_rule, C13_main_module_refuted/_partial. Tie: exhaustive '
+                 'inverted range), C13_qnmatch_characterised / C13_inverted_range_raises (re.error exactly for inverted ranges), '
+                 'C13_bad_range_refuted ([z-a]), C13_meaning_is_relational, C13_precedence, C13_exact_beats_patterns, '
+                 'C13_last_rule_meaning, C13_default_rule, C13_cache_transparent, C13_parse_rule, '
+                 'C13_main_module_refuted / C13_documentable_partial. Tie: exhaustive '
                  'pattern x name correspondence against the real qnmatch (patterns <= 4 quick / <= 5 thorough over 11 '
                  'characters x 341 names), random longer patterns, all rule lists <= 3 against the real System.privacyClass.'),
         'note': ('Trusted: Coq kernel, extraction + OCaml driver, the Python harness, Spec/ReFrag.v as the meaning of CPython re '
@@ -668,7 +670,7 @@ class Check(PropertyCheck):
                 if o:
                     found.append(Violation('oracle', o, case=c, observed=i))
         if fresh():
-            return found
+            return self._trim(found)
         self.notes.append('search: widened oracle run against the real code (patterns <= 5 x 341 names, thorough parse/rule-list/random streams)')
         # (ii) patterns up to length 5, all names
         names = all_names(NAME_ALPHA, NAME_MAXLEN)
@@ -685,7 +687,7 @@ class Check(PropertyCheck):
             if len(found) > 200 and fresh():
                 break
         if fresh():
-            return found
+            return self._trim(found)
         # (iii) a larger random stream of pairs, parse values and rule lists
         saved = self.tier
         self.tier = 'thorough'
@@ -696,7 +698,7 @@ class Check(PropertyCheck):
                 if o:
                     found.append(Violation('oracle', o, case={'kind': 'parse', 'value': v}, observed=i))
             if fresh():
-                return found
+                return self._trim(found)
             cases = self.privacy_cases()
             impl2 = lib.run_impl_worker('c13_privacy.py', cases, jobs=16)
             for c, obs in zip(cases, impl2):
@@ -705,7 +707,7 @@ class Check(PropertyCheck):
                     if pv:
                         found.append(pv)
             if fresh():
-                return found
+                return self._trim(found)
             pairs = []
             for _ in range(6000):
                 p = self.random_pattern()
@@ -718,7 +720,13 @@ class Check(PropertyCheck):
                     found.append(Violation('oracle', o, case={'kind': 'qnmatch', 'pattern': p, 'name': n}, observed=i))
         finally:
             self.tier = saved
-        return found
+        return self._trim(found)
+
+    def _trim(self, found: List[Violation]) -> List[Violation]:
+        known = self.known_entries()
+        new = [v for v in found if self.classify_known(v, known) is None]
+        old = [v for v in found if self.classify_known(v, known) is not None]
+        return new[:200] + old[:20]
 
     def classify_known(self, v: Violation, known: List[dict]) -> Optional[dict]:
         c = v.case
